@@ -43,6 +43,39 @@ static json render_all(const std::string& bytes)
     return out;
 }
 
+// The blocks of a file kept by the application: each block returned by the reader is MOVED into a container (which moves
+// its elements again whenever it grows), the reader and its stream are gone before any record is read - as a queue of
+// blocks handed to another stage, or the Python binding's tuple, does it.
+static json kept_dump(const std::string& bytes)
+{
+    json out = json::object();
+    size_t n = 0;
+    try {
+        std::vector<CdnsBlockRead> kept;
+        {
+            std::istringstream is(bytes, std::ios::binary);
+            CdnsReader reader(is);
+            bool eof = false;
+            while (true) {
+                CdnsBlockRead blk = reader.read_block(eof);
+                if (eof) break;
+                kept.push_back(std::move(blk));
+                if (kept.size() > 64) kept.erase(kept.begin());      // (bounded memory on hostile inputs)
+            }
+        }
+        for (auto& blk : kept) {
+            bool end = false;
+            while (true) { GenericQueryResponse g = blk.read_generic_qr(end); if (end) break; n += g.string().size(); }
+            while (true) { GenericAddressEventCount g = blk.read_generic_aec(end); if (end) break; n += g.string().size(); }
+            while (true) { GenericMalformedMessage g = blk.read_generic_mm(end); if (end) break; n += g.string().size(); }
+        }
+        out["fin"] = "eof";
+    } catch (CdnsDecoderEnd&) { out["fin"] = "end"; }
+    catch (std::exception& e) { out["fin"] = "err"; }
+    out["rendered"] = n;
+    return out;
+}
+
 int main(int argc, char** argv)
 {
     if (argc != 4) { fprintf(stderr, "usage: rd_driver dump|render <list> <out>\n"); return 2; }
@@ -59,10 +92,11 @@ int main(int argc, char** argv)
         json ev = {{"e", "RD"}, {"file", name}, {"size", bytes.size()}};
         if (mode == "safety") {
             // C03: both entry points, outcome class and time only
-            for (const char* entry : {"reader+accessors", "renderers"}) {
+            for (const char* entry : {"reader+accessors", "renderers", "blocks kept by move"}) {
                 vh::set_context(json{{"entry", entry}, {"input", name}});
                 long t0 = vh::cpu_ms();
-                json r = std::string(entry) == "renderers" ? render_all(bytes) : vr::reader_dump(bytes);
+                json r = std::string(entry) == "renderers" ? render_all(bytes)
+                       : std::string(entry) == "blocks kept by move" ? kept_dump(bytes) : vr::reader_dump(bytes);
                 long ms = vh::cpu_ms() - t0;
                 std::string fin = r["fin"];
                 vh::trace().emit({{"e", "X"}, {"entry", entry}, {"input", name}, {"outcome", fin == "eof" ? "ok" : fin},
